@@ -36,6 +36,7 @@ def run(ctx) -> None:
     rep.rule("C14.R5", "nested pauses are re-raised path-qualified; separator agrees with PauseInfo", floor=3)
     rep.rule("C14.R6", "partial-state attribute name agrees between writer and reader", floor=1)
     rep.rule("C14.R7", "a PAUSED nested result is never consumed as data", floor=4)
+    rep.rule("C14.R8", "the pause handler always returns the PAUSED result: values computed before the pause are filtered with the non-raising policy", floor=2)
 
     pe = db.cls("runners._shared.types.PauseExecution")
     # ---- R1 ---------------------------------------------------------------------
@@ -266,6 +267,11 @@ def run(ctx) -> None:
                             read.add(c.args[1].value)
     ok = bool(written) and bool(read) and read <= written
     rep.add("C14.R6", "partial-state-attribute", ok, "src/hypergraph/runners/async_/runner.py:1", f"writer sets {sorted(written)}, reader gets {sorted(read)}" if ok else f"partial state attribute mismatch: writer sets {sorted(written)}, reader gets {sorted(read)} (a paused run would lose the values computed so far)")
+
+    # ---- R8 ---------------------------------------------------------------------
+    from .c11 import check_handlers_filter_quietly
+
+    check_handlers_filter_quietly(ctx, "C14.R8", only="PauseExecution")
 
     # ---- R7 ---------------------------------------------------------------------
     gcls = db.cls("graph.core.Graph")
